@@ -165,7 +165,48 @@ def stmt(r, d, ind):
     return [p + 'pass']
 
 
-def layout(r):
+# non-ASCII material: 2-, 3- and 4-byte UTF-8 characters; identifiers with combining marks (Devanagari, Thai),
+# U+00B7 (Other_ID_Continue), U+2118 (Other_ID_Start), NFKC-normalising forms (ligature fi, full-width letters)
+UNI_IDS = ["\u0928\u093e\u092e", "\u0e0a\u0e37\u0e48\u0e2d", "paral\u00b7lel", "\u2118x", "\ufb01le", "\uff46\uff55\uff4c\uff4c",
+           "\u00e9t\u00e9", "\u65e5\u672c", "\U0001d4b3y"]
+UNI_STR = ["\u65e5\u672c\u8a9e", "\u20ac", "\u201cq\u201d", "\U0001f600", "\U0001d4b3", "\u00e9", "\u0928\u093e\u092e \U0001f600 \u20ac"]
+
+
+def uni_line(r):
+    """a top-level line (or two) with non-ASCII text in front of `;`-joined imports, in trailing comments, in
+    decorators, as variable / attribute / module / missing names"""
+    u, v, s = r.choice(UNI_IDS), r.choice(UNI_IDS), r.choice(UNI_STR)
+    k = r.randint(0, 13)
+    if k == 0:
+        return 's = "%s"; import os; print(os, s)' % s
+    if k == 1:
+        return '%s = "%s"; %s' % (u, s, imp(r))
+    if k == 2:
+        return '%s  # %s' % (imp(r), s)
+    if k == 3:
+        return 'x = 1  # %s\n%s' % (s, imp(r))
+    if k == 4:
+        return '@%s.deco("%s")\ndef %s(): pass' % (u, s, v)
+    if k == 5:
+        return '"%s"; import %s; %s.%s' % (s, u, u, v)
+    if k == 6:
+        return '%s.%s = "%s"; from %s import %s' % (u, v, s, r.choice(["pkg", "m", u]), v)
+    if k == 7:
+        return 'import %s' % u
+    if k == 8:
+        return 'from %s import %s as %s' % (r.choice(["pkg", u]), v, r.choice([v, u, name(r)]))
+    if k == 9:
+        return 'print(%s.%s, "%s")' % (u, v, s)
+    if k == 10:
+        return '# %s\n%s; %s = 1  # %s' % (s, imp(r), u, s)
+    if k == 11:
+        return "%s = \'\'\'%s\n# %s\n\'\'\'; import %s" % (name(r), s, s, r.choice(["os", u]))
+    if k == 12:
+        return '@%s("%s")  # %s\nclass %s: pass' % (name(r), s, s, v)
+    return 'import %s.%s as %s; %s' % (u, v, name(r), u)
+
+
+def layout(r, uni=False):
     """top-level source with rich layout: docstring/comment prologues, `;` joins, trailing comments, imports after
     code, imports sharing a line with other statements, prologue-only files, missing final newline, long names"""
     lines = []
@@ -189,6 +230,9 @@ def layout(r):
         return src + ('\n' if r.random() < .7 else '')
     for _ in range(r.randint(1, 8)):
         k = r.random()
+        if uni and r.random() < .4:
+            lines.append(uni_line(r))
+            continue
         if k < 0.35:
             for s in [imp(r) for _ in range(r.randint(1, 3))]:
                 if r.random() < 0.15:
@@ -251,12 +295,17 @@ def compilable(src):
         return False
 
 
-def gen_layout_src(r):
+def gen_layout_src(r, uni=False):
     for _ in range(50):
-        src = layout(r)
-        if compilable(src) and src.isascii():
+        src = layout(r, uni)
+        if compilable(src) and (uni or src.isascii()):
             return src
     return "x = 1\n"
+
+
+DB_UNI = ("import \u0928\u093e\u092e\nfrom m import paral\u00b7lel\nimport \u2118x\nfrom \u0e0a\u0e37\u0e48\u0e2d import \ufb01le\n"
+          "from m import \u65e5\u672c\nfrom n import \u65e5\u672c\nimport os\nfrom pkg import \uff46\uff55\uff4c\uff4c\n"
+          "__mandatory_imports__=['from __future__ import division']\n")
 
 
 # ---------------------------------------------------------------------------------------------
